@@ -114,6 +114,10 @@ UNITS = {
         'engine': 'verus', 'complete': True,
         'title': 'hexescape::<N> closures: exactly N digits, hex value, Unicode scalar values only (unbounded, under assumed from_str_radix / char::from_u32 contracts)',
     },
+    'V12': {
+        'engine': 'verus', 'complete': True,
+        'title': 'float literal conversion closure of fn float: value = str::parse::<f64> of the text with every _ removed; guard = not infinite (unbounded, under assumed replace / parse / is_infinite contracts)',
+    },
     'V11': {
         'engine': 'verus', 'complete': True,
         'title': 'document grammar date-time assembly: closures of date_time / partial_time / time_offset, full_date_ result, From<Date>/From<Time> for Datetime: every part lands unchanged in its field (unbounded)',
@@ -180,9 +184,9 @@ UNITS = {
 PLAN = {
     'C10': {'quick': ['V1', 'K1'], 'thorough': ['V1', 'K1']},
     'C04': {'quick': ['V1', 'V3', 'V4', 'V5', 'V6', 'V7', 'V9', 'V10', 'V11', 'K1', 'K12'], 'thorough': ['V1', 'V3', 'V4', 'V5', 'V6', 'V7', 'V9', 'V10', 'V11', 'K1', 'K12', 'K8t', 'K3t', 'K5']},
-    'C11': {'quick': ['K7', 'K7s', 'K6e', 'K6t', 'K6d', 'V8', 'K11f'], 'thorough': ['K7', 'K7s', 'K6e', 'K6t', 'K6d', 'V8', 'K11f']},
+    'C11': {'quick': ['K7', 'K7s', 'K6e', 'K6t', 'K6d', 'V8', 'V12', 'K11f'], 'thorough': ['K7', 'K7s', 'K6e', 'K6t', 'K6d', 'V8', 'V12', 'K11f']},
     'C01': {'quick': ['K1', 'K7', 'V4', 'V8', 'V9', 'K2'], 'thorough': ['K1', 'K7', 'V4', 'V8', 'V9', 'K2', 'K2y', 'K5']},
-    'C02': {'quick': ['K2', 'K7s', 'K6t', 'K6d', 'V5', 'V7', 'V8', 'V9', 'V11'], 'thorough': ['K2', 'K2y', 'K7s', 'K6t', 'K6d', 'V5', 'V7', 'V8', 'V9', 'V11', 'K5']},
+    'C02': {'quick': ['K2', 'K7s', 'K6t', 'K6d', 'V5', 'V7', 'V8', 'V9', 'V11', 'V12'], 'thorough': ['K2', 'K2y', 'K7s', 'K6t', 'K6d', 'V5', 'V7', 'V8', 'V9', 'V11', 'V12', 'K5']},
     'C05': {'quick': ['V3', 'K12'], 'thorough': ['V3', 'K12']},
     'C12': {'quick': ['V4', 'V5', 'V6', 'V7', 'V11', 'K2', 'K3q'], 'thorough': ['V4', 'V5', 'V6', 'V7', 'V11', 'K2', 'K2y', 'K3q', 'K3t', 'K3a']},
     'C14': {'quick': ['K11', 'K14', 'K14r'], 'thorough': ['K11', 'K14', 'K14r']},
